@@ -164,7 +164,7 @@ def configs(tier, shipped):
         return {"main": main}
     main = dict(
         lists=[list(shipped)] + other_lists(shipped, tier),
-        tokens=TOK_BASE + ["/wap", "7"], na=4, terms_a={"\r\n"}, hdrs_a=[[], ["AW", "XP"]],
+        tokens=TOK_BASE + ["/wap", "7"], na=4, terms_a={"\r\n"}, hdrs_a=[[]],
         famb=[dict(big, T={"\r\n", "\n"}, HK=KINDS, HN=2),
               dict(M={"GET", "HEAD", "x"}, S={" "}, P={"/wap", "/wapx", "/x", ""}, V={"HTTP/1.0", "0"}, T={"\r\n", "\n"},
                    HK=KINDS - {"NC"}, HN=4)],
